@@ -29,7 +29,10 @@ use serde::de::DeserializeOwned;
 use serde::Serialize;
 use serde_json::{json, Value};
 
-pub const VERIF_DIR: &str = "/verif";
+/// Root of the verification tree (`VERIF_DIR` overrides it for scratch copies).
+pub fn verif_dir() -> String {
+    std::env::var("VERIF_DIR").unwrap_or_else(|_| "/verif".to_string())
+}
 
 /// Verdict of the oracle for one generated case.
 #[derive(Debug, Clone)]
@@ -329,7 +332,7 @@ impl Run {
         let args = Args::parse();
         install_panic_hook();
         let known: Vec<KnownFinding> =
-            std::fs::read_to_string(format!("{VERIF_DIR}/known_findings.json"))
+            std::fs::read_to_string(format!("{}/known_findings.json", verif_dir()))
                 .ok()
                 .and_then(|s| serde_json::from_str::<Vec<KnownFinding>>(&s).ok())
                 .unwrap_or_default()
@@ -423,7 +426,7 @@ impl Run {
         let txt = serde_json::to_string_pretty(&rf).unwrap();
         let mut h = DefaultHasher::new();
         txt.hash(&mut h);
-        let dir = format!("{VERIF_DIR}/replay");
+        let dir = format!("{}/replay", verif_dir());
         let _ = std::fs::create_dir_all(&dir);
         let path = PathBuf::from(format!(
             "{dir}/{}-{}-{:08x}.json",
@@ -623,8 +626,11 @@ impl Run {
                             if counting {
                                 shared.evals.fetch_add(1, Ordering::Relaxed);
                                 if !res.labels.is_empty() {
+                                    let mut ls = res.labels.clone();
+                                    ls.sort();
+                                    ls.dedup();
                                     let mut g = shared.labels.lock().unwrap();
-                                    for l in &res.labels {
+                                    for l in &ls {
                                         *g.entry(l.clone()).or_default() += 1;
                                     }
                                 }
@@ -974,7 +980,7 @@ impl Run {
                 std::process::exit(2);
             }
         } else if !self.args.no_evidence && self.args.only.is_none() {
-            let dir = format!("{VERIF_DIR}/evidence");
+            let dir = format!("{}/evidence", verif_dir());
             let _ = std::fs::create_dir_all(&dir);
             let path = format!("{dir}/{}.json", self.id);
             if let Err(e) = std::fs::write(&path, serde_json::to_string_pretty(&ev).unwrap()) {
